@@ -8,6 +8,7 @@ func TestSortAttachments(t *testing.T) {
 		{"define void @f() !b !1 !a !2 {", "define void @f() !a !2 !b !1 {"},
 		{"declare !b !1 !a !2 void @f()", "declare !a !2 !b !1 void @f()"},
 		{"@g = global i32 0, align 4, !z !0, !a !1", "@g = global i32 0, align 4, !a !1, !z !0"},
+		{"@g = external global i8, !z !0, !a !2, !a !1 #3", "@g = external global i8, !a !2, !a !1, !z !0 #3"},
 		{"  ret void", "  ret void"},
 	}
 	for _, c := range cases {
